@@ -65,17 +65,6 @@ def pmStep (st : PmSt) : List String → Option (PmSt × String)
   | ["pm-new", k] => do
       let k ← k.toNat?
       pure ({ k := k }, "")
-  | "pm-add" :: a :: f :: n :: rest => do
-      let a ← a.toNat?
-      let f ← f.toNat?
-      let n ← n.toNat?
-      let cs ← parseCommits n rest
-      let head ← cs.getLast?
-      let t : Tx := ⟨cs.dropLast, head⟩
-      let (p1, r) := addAt st.pool a t (f != 0)
-      let seen := cs.foldl (fun acc b => pmNote acc a b.id) st.seen
-      let (st2, o) := pmObserve { st with pool := p1, seen := seen }
-      pure (st2, s!"{showAddRes r} {o}")
   | "pm-insert" :: n :: rest => do
       let n ← n.toNat?
       let content ← parseContent n rest
@@ -100,6 +89,19 @@ def pmStep (st : PmSt) : List String → Option (PmSt × String)
       | some bs =>
         let gs := bs.map (fun e => s!"{e.1}:{showH4 e.2.hash}")
         pure (st, if gs.isEmpty then "-" else ",".intercalate gs)
+  | op :: a :: f :: n :: rest => do
+      -- pm-add: the code as it is; pm-addR: the repaired rule (VERIF_POOL_REPAIRED=1 on the harness side)
+      if op ≠ "pm-add" ∧ op ≠ "pm-addR" then none else
+      let a ← a.toNat?
+      let f ← f.toNat?
+      let n ← n.toNat?
+      let cs ← parseCommits n rest
+      let head ← cs.getLast?
+      let t : Tx := ⟨cs.dropLast, head⟩
+      let (p1, r) := if op = "pm-addR" then addAtR st.pool a t (f != 0) else addAt st.pool a t (f != 0)
+      let seen := cs.foldl (fun acc b => pmNote acc a b.id) st.seen
+      let (st2, o) := pmObserve { st with pool := p1, seen := seen }
+      pure (st2, s!"{showAddRes r} {o}")
   | _ => none
 
 end ZV.Driver
